@@ -23,6 +23,8 @@ C19) JOBS="ops:7" ;;
 esac
 cd /verif/harness || exit 2
 export CARGO_NET_OFFLINE=true
+# AddressSanitizer reserves terabytes of address space: lift the (soft) limit ./check sets for the proptest run
+ulimit -S -v unlimited 2>/dev/null
 # rebuilds the instrumented harness (and petgraph from /repo's working tree) when anything changed
 if ! cargo +nightly fuzz build --fuzz-dir "$F" >"$F/build.log" 2>&1; then
     tail -20 "$F/build.log"; echo "INCONCLUSIVE property=$ID: fuzz build failed"; exit 2
